@@ -61,6 +61,7 @@ package pebble
 // its deferred directory sync (whose error the code ignores: sync failures are outside the crash-only fault model) makes the entries of dir durable
 //@   ensures result == nil ==> forall p string :: parentOf(p) == dir && old(fs.vHas[p]) ==> fs.dHas[p]
 //@   ensures forall p string :: old(fs.dHas[p]) && old(fs.vHas[p]) ==> fs.dHas[p] && fs.vHas[p]
+//@   ensures forall p string :: old(fs.vHas[p]) ==> fs.vHas[p]
 //@   ensures forall d string :: fs.dCur[d] == old(fs.dCur[d]) && fs.vCur[d] == old(fs.vCur[d])
 //@   modifies fs.updName, fs.vHas, fs.dHas
 
